@@ -177,7 +177,14 @@ theorem foldBinInt_sound (op : Op) (bb : Option (Bool × Bool)) (l r : Int) (res
     split at h
     · injection h with h; subst h; rfl
     · cases h
-  case truediv | floordiv | mod =>
+  case truediv =>
+    split at h
+    · rename_i hc
+      split at h
+      · cases h
+      · rename_i ho; injection h with h; subst h; simp [hc, ho]
+    · cases h
+  case floordiv | mod =>
     split at h
     · rename_i hc; injection h with h; subst h; simp [hc]
     · cases h
@@ -209,7 +216,9 @@ theorem foldBinInt_complete (op : Op) (bb : Option (Bool × Bool)) (l r : Int) (
   case add | sub => injection h with h; rw [h]
   case mul => injection h with h; rw [if_pos hg, h]
   case truediv =>
-    split at h <;> cases h
+    split at h
+    · cases h
+    · split at h <;> cases h
   case floordiv | mod =>
     split at h
     · cases h
@@ -234,6 +243,28 @@ theorem foldBinInt_complete (op : Op) (bb : Option (Bool × Bool)) (l r : Int) (
     · rename_i hc; injection h with h
       have : r ≥ 0 := by omega
       rw [if_pos this, if_pos hg, h]
+  case matmul => cases h
+
+/-- true division: the folder returns CPython's quotient of the same two integers whenever CPython has one -/
+theorem foldBinInt_quot (op : Op) (bb : Option (Bool × Bool)) (l r x y : Int) :
+    pyBinInt op bb l r = .ok (.quot x y) → foldBinInt op bb l r = some (.quot x y) := by
+  intro h
+  cases op <;> simp only [foldBinInt, pyBinInt] at h ⊢
+  case truediv =>
+    split at h
+    · cases h
+    · rename_i hc
+      split at h
+      · cases h
+      · rename_i ho; injection h with h; simp [hc, ho, h]
+  case add | sub | mul => cases h
+  case floordiv | mod => split at h <;> cases h
+  case band | bor | bxor => split at h <;> cases h
+  case lshift | rshift => split at h <;> cases h
+  case pow =>
+    split at h
+    · split at h <;> cases h
+    · cases h
   case matmul => cases h
 
 /-- above the guard the int folder declines -/
@@ -280,8 +311,11 @@ theorem ite_ok {c : Prop} [Decidable c] {x v : Val}
 
 
 theorem foldRepeat_ne_float (flag : Bool) (mk : List Nat → Val) (s : List Nat) (n : Int) :
-    foldRepeat flag mk s n ≠ some .float := by
+    (∀ x y, foldRepeat flag mk s n ≠ some (.quot x y)) ∧ foldRepeat flag mk s n ≠ some .float := by
   unfold foldRepeat; split <;> simp
+
+theorem seqMul_ne_quot (mk : List Nat → Val) (s : List Nat) (n x y : Int) : seqMul mk s n ≠ .ok (.quot x y) := by
+  unfold seqMul; split <;> simp
 
 /-! ### `int.bit_length()` and the size of guarded results -/
 
